@@ -3,13 +3,13 @@ against the REAL runtime classes (type-stripped codegen-v2.ts) + property oracle
 import vcheck
 
 PID = "C03"
-MODULES = ["BeffVerif.Props.C03"]
+MODULES = ["BeffVerif.Props.C03", "BeffVerif.Props.C03NoThrow"]
 AUDIT = "BeffVerif/Audit/C03.lean"
 TAGS = ("c03.",)
 HYP = {"NoProtoNamedKeys": "D28", "IntersectionsOfObjects": "D29", "NoSplitIntersection": "D32", "NoAccessorNamedProps": "D33"}
 OPEN = [
     "parse_revalidates / parse_projection / parse_idempotent / keyOrder_only at full strength: false on the current code (D28, D29: negations proved in Props/C03.lean); the _partial versions under noProtoNamedProps ∧ intersectionsOfObjects are not yet proved — covered by the correspondence + JS property oracle",
-    "no_foreign_throw for closed environments (validate only throws at an unresolved reference) — not yet proved",
+    "no_foreign_throw is proved for validate (validate_no_throw, Props/C03NoThrow.lean); for safeParse / parse the only model-level exceptions are the documented parse error and the JSON.stringify paths of deduplicateErrors (guarded since fix D35) — not proved as a theorem",
     "no_mutation is trivial in the model (immutable values); mutation is observed only by the harness snapshot",
 ]
 RULE = ("random (environment, Runtype tree, value, strict flag): trees are built from the REAL classes (compiler-like shapes: objects with "
